@@ -37,7 +37,7 @@ type opRec struct {
 	failed bool
 }
 
-var c13Kinds = []string{"append", "join", "joinbad", "values", "heads", "rawheads", "getentries", "get", "has", "len", "snapshot", "jsonlog", "tostring", "iterator", "tomultihash", "setidentity"}
+var c13Kinds = []string{"append", "join", "joinbad", "values", "heads", "rawheads", "getentries", "get", "has", "len", "snapshot", "jsonlog", "tostring", "iterator", "iterstream", "tomultihash", "setidentity"}
 
 var c13Points = map[string][]string{
 	"append":      {"append.enter", "append.locked", "append.created", "append.indexed", "append.exit"},
@@ -391,6 +391,25 @@ func (s *scene) do(run *evid.Run, g int, kind string, rng *rand.Rand, exact bool
 		}
 		set := s.checkSeq(run, "Iterator", v, true, wit)
 		s.monotone(run, g, "Iterator", set, wit)
+	case "iterstream":
+		// entries are handed over one by one through an unbuffered channel; after the first one the
+		// consumer (this goroutine) writes to the same log and then keeps receiving
+		out := make(chan iface.IPFSLogEntry)
+		errc := make(chan error, 1)
+		go func() { errc <- L.Iterator(&iface.IteratorOptions{}, out) }()
+		var v []string
+		first := true
+		for e := range out {
+			v = append(v, e.GetHash().String())
+			if first {
+				first = false
+				s.do(run, g, "append", rng, false) // recorded as an ordinary append of this goroutine
+			}
+		}
+		<-errc
+		r.Ret = s.tick()
+		set := s.checkSeq(run, "Iterator (streamed)", v, true, wit)
+		s.monotone(run, g, "Iterator (streamed)", set, wit)
 	case "tomultihash":
 		c, err := L.ToMultihash(s.w.Ctx)
 		r.Ret = s.tick()
@@ -582,6 +601,7 @@ func (s *scene) offline(run *evid.Run, label string, wit func() map[string]any) 
 	for _, a := range apps {
 		want[a.e.Hash] = a.e
 	}
+
 	for h, e := range added {
 		want[h] = e
 	}
